@@ -40,6 +40,14 @@ MayVanish(cfg, pre, e) ==
      /\ \/ cfg.limit # 0 /\ Cardinality(Dom(pre) \cup {e.k}) > cfg.limit
         \/ e.mem /\ cfg.maxmem # 0 /\ SizeOf(pre, Dom(pre) \ {e.k}) + e.size > cfg.maxmem
 
+\* a store that does not overflow (entry limit not reached, total size fits) loses no unexpired entry:
+\* an earlier stored result stays served (used by the C09 / C10 / C11 monitors for the results THEY say
+\* are stored; pre carries ghost ages)
+NoNeedlessLoss(cfg, pre, e, post) ==
+  ( /\ cfg.limit = 0 \/ Cardinality(Dom(pre) \cup {e.k}) <= cfg.limit
+    /\ cfg.maxmem = 0 \/ ~e.mem \/ SizeOf(pre, Dom(pre) \ {e.k}) + e.size <= cfg.maxmem )
+  => (Dom(pre) \ ExpiredKeys(cfg, pre)) \ {e.k} \subseteq Dom(post)
+
 Unconfigured(cfg, meta) ==
   cfg.limit = 0 /\ cfg.ttl = 0 /\ cfg.maxmem = 0 /\ ~meta.hasCif /\ ~meta.hasInv /\ ~meta.isResult
 
@@ -66,6 +74,7 @@ M_C09(cfg, meta, pre, r, post, g) ==
      /\ r.ev = "fin" /\ ~r.panic =>
           /\ ~r.ok => ~Stored(r, post) /\ Dom(post) = Dom(pre)
           /\ r.ok => Stored(r, post) \/ MayVanish(cfg, pre, EngEvent(meta, r))
+          /\ r.ok => NoNeedlessLoss(cfg, pre, EngEvent(meta, r), post)
 
 \* C10: cache_if
 M_C10(cfg, meta, pre, r, post, g) ==
@@ -77,6 +86,7 @@ M_C10(cfg, meta, pre, r, post, g) ==
           /\ r.cif = 0 => ~Stored(r, post) /\ Dom(post) = Dom(pre)
           /\ (meta.kind # "async" /\ meta.isResult /\ ~r.ok) => ~Stored(r, post)
           /\ ShouldStore(meta, r) => Stored(r, post) \/ MayVanish(cfg, pre, EngEvent(meta, r))
+          /\ ShouldStore(meta, r) => NoNeedlessLoss(cfg, pre, EngEvent(meta, r), post)
 
 \* C11: invalidate_on
 M_C11(cfg, meta, pre, r, post, g) ==
@@ -89,6 +99,7 @@ M_C11(cfg, meta, pre, r, post, g) ==
           /\ ~present => r.invn = 0 /\ r.exec
      /\ r.ev = "fin" /\ ~r.panic /\ ShouldStore(meta, r) =>
           /\ Stored(r, post) \/ MayVanish(cfg, pre, EngEvent(meta, r))
+          /\ NoNeedlessLoss(cfg, pre, EngEvent(meta, r), post)
           \* the body only ran over a present, unexpired entry because the check called it stale:
           \* whatever happens to the fresh result, the stale value must be gone
           /\ (r.k \in Dom(pre) /\ ~Expired(cfg, pre.store[r.k])) =>
